@@ -172,7 +172,7 @@ def check_case(case):
             p = tmp.fresh("dist_%d.h5" % c, odd=None if case.get("odd_paths") is None else case["odd_paths"] + c)
             paths.append(p)
             if case["cli"]:
-                run_cli("calculate_distance_matrix", ["--data", screen_file, "--thetas"] + theta_files + ["--distance-metric", "MSEDistance", "--n-chunks", k, "--chunk-index", c, "--output", p] + (["--progress"] if case.get("progress") else []))
+                run_cli("calculate_distance_matrix", ["--data", screen_file, "--thetas"] + theta_files + ["--distance-metric", "MSEDistance", "--n-chunks", k, "--chunk-index", c, "--output", p] + (["--progress"] if case.get("progress") else []), verbose=(case.get("odd_paths") or 0) % 2 == 1)
             else:
                 if case.get("progress"):
                     import contextlib
